@@ -53,16 +53,53 @@ Print Assumptions load_complete.
 
 (** non-vacuity and a worked instance: two particles, files on N=7 in the Chebyshev basis,
     solver on N=5 asking for Cardinal; then a directory with a missing file *)
-Definition dir_ok : directory := fun p q => Some (mkfile 7 Chebyshev (10 * p + q)).
+Definition dir_ok : directory := fun p q => Some (mkfile 7 Chebyshev (10 * p + q) ShapeOk).
 Definition dir_missing : directory := fun p q => if (p =? 4) && (q =? 3) then None else dir_ok p q.
+(** a file whose dataset is of lower rank than its metadata announces (numpy would broadcast) *)
+Definition dir_malformed : directory :=
+  fun p q => if (p =? 3) && (q =? 4) then Some (mkfile 7 Chebyshev 99 ShapeBroadcast) else dir_ok p q.
 Example load_example :
   (match newFromDirectory the_cfg dir_ok 5 Cardinal [3; 4] true with
    | Ok a => a_blocks a 1 0
    | Err _ => None end) = Some (mkblock 43 5 Cardinal true) /\
-  (let '(s, outs) := run the_cfg 5 Cardinal [OpParticles [3; 4]; OpLoad dir_ok; OpLoad dir_missing] [] None in
+  (let '(s, outs) := run the_cfg 5 Cardinal [OpParticles [3; 4]; OpLoad dir_ok; OpLoad dir_missing;
+                                              OpLoad dir_malformed] [] None in
    (match s with Some a => a_blocks a 0 1 | None => None end, outs)) =
-  (Some (mkblock 34 5 Cardinal true), [Ok tt; Err CollisionLoadError]).
+  (Some (mkblock 34 5 Cardinal true), [Ok tt; Err CollisionLoadError; Err CollisionLoadError]).
 Proof. vm_compute. split; reflexivity. Qed.
+
+(** * 1b. The two in-package call sites (facts [fd_prog], [manager_handlers],
+       [unreviewed_call_paths] extracted from equationOfMotion.py, manager.py and a scan of
+       every module of the package) *)
+
+(** EOM.getBoltzmannFiniteDifference -- the only caller of changeBasis on a live array --
+    leaves the spectral solver's array (numbers and label) and its basisN untouched, and the
+    finite-difference solver applies its array only under the label that is its own basisN *)
+Theorem fd_estimate_isolated : forall a bN s',
+  a_label a = bN -> known bN = true ->
+  fd_run fd_prog (fd_init a bN) = Ok s' ->
+  fd_orig s' = a /\ fd_orig_basisN s' = bN /\
+  fd_used s' <> [] /\ forall pr, In pr (fd_used s') -> fst pr = snd pr.
+Proof. apply (CollisionLoad.fd_isolated fd_prog). facts_good. Qed.
+Print Assumptions fd_estimate_isolated.
+
+Example fd_estimate_runs :
+  exists s', fd_run fd_prog (fd_init (mkcarray 5 Chebyshev (fun _ _ => None)) Chebyshev) = Ok s' /\
+             fd_used s' = [(Cardinal, Cardinal)].
+Proof. eexists. split; vm_compute; reflexivity. Qed.
+
+(** WallGoManager.setupWallSolver with off-equilibrium requested: the complete array is
+    installed, or the load's own error reaches the caller -- never a silent LTE solver; and no
+    other path into the loading / conversion functions exists in the package *)
+Theorem manager_never_silently_lte : forall s load,
+  manager_setup manager_handlers true s load =
+  match snd load with Ok _ => Ok (fst load, true) | Err k => Err k end.
+Proof. apply CollisionLoad.manager_propagates. facts_good. Qed.
+Print Assumptions manager_never_silently_lte.
+
+Theorem only_reviewed_call_paths : unreviewed_call_paths = 0.
+Proof. facts_good. Qed.
+Print Assumptions only_reviewed_call_paths.
 
 (** * 2. Interpolation: index arithmetic of evaluate -> truncate -> moveaxis -> reshape *)
 
@@ -305,7 +342,9 @@ Print Assumptions interp_pairwise_independent.
 
 (** * 3. Error kinds: every fault of the quantifier is a CollisionLoadError, and a load
        fails ONLY for those faults *)
-(** D8 (now fixed): missing file, oversized target, size or basis mismatch between files *)
+(** D8 (now fixed): missing file, oversized target, size or basis mismatch between files; and
+    (fixed in be912d0) a dataset that is absent or whose shape is not the announced one --
+    [wf_dir] only asks for recognised basis names, datasets may be malformed *)
 Theorem load_error_kind : forall dir N req parts k,
   wf_dir dir parts -> known req = true -> parts <> [] ->
   newFromDirectory the_cfg dir N req parts true = Err k -> k = CollisionLoadError.
